@@ -63,6 +63,18 @@ Theorem C06_identical_axes : forall axs a a',
 Proof. exact align_one_labels. Qed.
 Print Assumptions C06_identical_axes.
 
+(* any number of inputs (the fold _common_axis): the common axis holds exactly the labels that some input has
+   (outer join) / that every input has (inner join) *)
+Theorem C06_nary_union_set : forall axs r,
+  Forall (fun a => mem_label LNone (alab a) = false) axs -> common_axis axs Outer = Ok r ->
+  forall l, mem_label l (alab r) = existsb (fun a => mem_label l (alab a)) axs.
+Proof. exact common_axis_outer_set. Qed.
+Print Assumptions C06_nary_union_set.
+Theorem C06_nary_inter_set : forall axs r,
+  Forall (fun a => mem_label LNone (alab a) = false) axs -> common_axis axs Inner = Ok r ->
+  forall l, mem_label l (alab r) = forallb (fun a => mem_label l (alab a)) axs.
+Proof. exact common_axis_inner_set. Qed.
+Print Assumptions C06_nary_inter_set.
 Definition ex_a : darr := Arr [Ax "t" KI [L_ 3; L_ 1] [] []] [2] KI [N_ 10; N_ 20] [].
 Definition ex_b : darr := Arr [Ax "t" KI [L_ 1; L_ 2] [] []; Ax "u" KO [LStr "p"] [] []] [2; 1] KF [N_ 7; N_ 8] [].
 Example C06_nonvacuous :
